@@ -209,6 +209,16 @@ func (s *Sim) NetDial() func(ctx context.Context, network, addr string) (net.Con
 	return s.DialFn
 }
 
+// CurrentID returns the logical identity of the calling goroutine ("" if it has none).
+func (s *Sim) CurrentID() string {
+	s.mu.Lock()
+	defer s.mu.Unlock()
+	if g := s.cur(); g != nil {
+		return g.id
+	}
+	return ""
+}
+
 // ---- harness side ----
 
 // Go starts a harness goroutine with a canonical identity; it parks before running fn.
